@@ -76,6 +76,12 @@ Definition xgtb (a b : XR) : bool := xltb b a.
 Definition xgeb (a b : XR) : bool := xleb b a.
 Definition xneqb (a b : XR) : bool := negb (xeqb a b).
 
+(* numpy / torch / jax `max` reduction: NaN wins; the empty reduction raises in the code (NaN here, never relied upon) *)
+Definition xmax2 (a b : XR) : XR :=
+  match a, b with NaN, _ | _, NaN => NaN | _, _ => if xltb a b then b else a end.
+Definition xvmax (l : list XR) : XR :=
+  match l with [] => NaN | a :: t => fold_left xmax2 t a end.
+
 (* invocations of the user's callables / the proposal density, as recorded by the translator *)
 Inductive ucall (X : Type) : Type :=
 | UFlow (pts : list X)                                   (* prior_flow.log_prob(pts) *)
